@@ -1650,34 +1650,25 @@ namespace igris
         template <typename... Args>
         iterator emplace(const_iterator pos, Args &&... args)
         {
-            // TODO insert optimization
             size_t _pos = pos - m_data;
 
+            // built first: the arguments may refer to an element of this
+            // vector, which is about to be moved
+            T tmp(igris::forward<Args>(args)...);
             reserve(m_size + 1);
+            shift_up(_pos, 1);
+            if (_pos < m_size)
+                m_data[_pos] = igris::move(tmp); // a moved-from object is there
+            else
+                igris::move_constructor(m_data + _pos, igris::move(tmp));
             m_size++;
 
-            iterator first = m_data + _pos;
-            iterator last = igris::prev((iterator)end());
-            igris::move_backward(first, last, end());
-            new (first) T(igris::forward<Args>(args)...);
-
-            return first;
+            return m_data + _pos;
         }
 
         iterator insert(const_iterator pos, const T &value)
         {
-            // TODO insert optimization
-            size_t _pos = pos - m_data;
-
-            reserve(m_size + 1);
-            m_size++;
-
-            iterator first = m_data + _pos;
-            iterator last = igris::prev((iterator)end());
-            igris::move_backward(first, last, (iterator)end());
-            *first = value;
-
-            return first;
+            return emplace(pos, value);
         }
 
         iterator insert(iterator pos, const_iterator first, const_iterator last)
@@ -1794,6 +1785,25 @@ namespace igris
         // }
 
     protected:
+        // moves the elements [pos, m_size) up by n slots. The slots at and
+        // behind m_size hold no object yet: move-construct there, move-assign
+        // below. Needs m_size + n <= m_capacity.
+        void shift_up(size_t pos, size_t n)
+        {
+            if (n == 0)
+                return;
+            for (size_t i = m_size; i > pos; --i)
+            {
+                size_t src = i - 1;
+                size_t dst = src + n;
+                if (dst >= m_size)
+                    igris::move_constructor(m_data + dst,
+                                            igris::move(m_data[src]));
+                else
+                    m_data[dst] = igris::move(m_data[src]);
+            }
+        }
+
         unsigned char changeBuffer(size_t sz)
         {
             size_t oldcapacity = m_capacity;
